@@ -295,6 +295,11 @@ def conditions(tier):
     return out
 
 
+def validate_stubs():
+    from props.bufferlib import validate_xml_facts
+    return validate_xml_facts()
+
+
 def signature(cond_name, args, detail):
     tr = " ".join((detail or {}).get("trace", []))
     if cond_name == "truncated/disabled":
